@@ -287,7 +287,9 @@ CLAIMED = {
         "'save' (else one OK false 'restricted', not stored, not seen by an all-powerful observer), REQ served iff roles "
         "intersect 'query' (else NOTICE 'restricted', no subscription, nothing pushed later), the homeserver output "
         "validator on stored answers and live pushes, role assignments set repeatedly and read back. Two defects found "
-        "here were repaired (no save check on LMDB; live pushes bypassing the output validator).",
+        "here were repaired (no save check on LMDB; live pushes bypassing the output validator), and a third in round 10: the HTTP "
+        "read path GET /e/<id> ignored the query roles and the output validator (fix: 3e99d65) — that path is in the matrix now, next "
+        "to connections whose identity changes mid-life and clients publishing look-alike role records.",
         "Trusted: the wiring (which call sites consult can_do / check_output) is exercised, not proved; evaluate_target is "
         "the shipped no-op; BIP-340.",
         "DESIGN.md §6 C14",
